@@ -33,20 +33,22 @@ def rand_callee_expr(rng, route, k):
     raise ValueError(route)
 
 
-def rand_fwd(rng, route, ncallees, nested=False):
+def rand_fwd(rng, route, ncallees, nested=False, callees=None):
     k = rng.randrange(ncallees)
     npos = rng.choice([0, 0, 0, 1, 2])
-    kws = rng.sample(['x', 'y', 'q'], rng.choice([0, 0, 1]))
+    # a keyword naming a positional-only parameter of the callee is version-dependent: excluded by the properties
+    po = {q[0] for q in callees[k] if q[1] == 'po'} if callees else set()
+    kws = [x for x in rng.sample(['x', 'y', 'q'], rng.choice([0, 0, 1])) if x not in po]
     va = rng.random() < 0.8
     vk = rng.random() < 0.8
     target = rng.choice([None, None, 'r0', 'r1'])
     return ('fwd', rand_callee_expr(rng, route, k), npos, kws, va, vk, target, k)
 
 
-def rand_stmt(rng, route, ncallees, depth=0):
+def rand_stmt(rng, route, ncallees, depth=0, callees=None):
     r = rng.random()
     if r < 0.42:
-        return rand_fwd(rng, route, ncallees)
+        return rand_fwd(rng, route, ncallees, callees=callees)
     if r < 0.50:
         return ('rebind', rng.choice('AK'))
     if r < 0.57:
@@ -63,21 +65,21 @@ def rand_stmt(rng, route, ncallees, depth=0):
     if r < 0.86:
         return ('nlr', rng.choice('AK'))
     if r < 0.93 and depth < 2:
-        return ('block', [rand_stmt(rng, route, ncallees, depth + 1) for _ in range(rng.randint(1, 3))])
+        return ('block', [rand_stmt(rng, route, ncallees, depth + 1, callees) for _ in range(rng.randint(1, 3))])
     if depth < 2:
-        return ('nested', [rand_nstmt(rng, route, ncallees, depth + 1) for _ in range(rng.randint(1, 3))])
+        return ('nested', [rand_nstmt(rng, route, ncallees, depth + 1, callees) for _ in range(rng.randint(1, 3))])
     return ('unrel', 'r2')
 
 
-def rand_nstmt(rng, route, ncallees, depth=0):
+def rand_nstmt(rng, route, ncallees, depth=0, callees=None):
     r = rng.random()
     if r < 0.6:
-        return rand_fwd(rng, route, ncallees, nested=True)
+        return rand_fwd(rng, route, ncallees, nested=True, callees=callees)
     if r < 0.75:
         return ('decoy', 'h1', rng.choice([0, 1]))
     if r < 0.9 or depth >= 3:
         return ('unrel', rng.choice(['r0', 'r1']))
-    return ('block', [rand_nstmt(rng, route, ncallees, depth + 1) for _ in range(rng.randint(1, 2))])
+    return ('block', [rand_nstmt(rng, route, ncallees, depth + 1, callees) for _ in range(rng.randint(1, 2))])
 
 
 def rand_prog(rng, maxstmts=5):
@@ -89,9 +91,9 @@ def rand_prog(rng, maxstmts=5):
         params = ['cb'] + params
     if route == 'self':
         params = ['self'] + params
-    body = [rand_stmt(rng, route, ncallees) for _ in range(rng.randint(1, maxstmts))]
+    body = [rand_stmt(rng, route, ncallees, 0, callees) for _ in range(rng.randint(1, maxstmts))]
     if not any(s[0] == 'fwd' for s in body):
-        body.insert(rng.randrange(len(body) + 1), rand_fwd(rng, route, ncallees))
+        body.insert(rng.randrange(len(body) + 1), rand_fwd(rng, route, ncallees, callees=callees))
     return dict(params=params, va=VA, vk=VK, body=body, route=route, callees=callees)
 
 
